@@ -125,6 +125,8 @@ def _track_consts(node, cenv):
                     isinstance(v, ast.UnaryOp) and isinstance(v.op, ast.Not)):
                 if not any(isinstance(x, ast.Name) and x.id == nm for x in ast.walk(v)):
                     cenv[nm] = _subst(v, cenv)
+            elif isinstance(v, ast.Name) and v.id in cenv and v.id != nm:
+                cenv[nm] = cenv[v.id]          # a copy of a tracked flag
     elif isinstance(node, (ast.AugAssign, ast.AnnAssign)):
         if isinstance(node.target, ast.Name):
             cenv.pop(node.target.id, None)
